@@ -53,9 +53,8 @@ theorem pad_tensor_pad_list_eq (dims : List (Int × Int)) :
   unfold pad_tensor_pad_list padPairs
   congr 2
   funext ⟨t, i⟩
-  simp only [padAfter, padBefore, pyMax, Int.fdiv_eq_ediv_of_nonneg _ (by decide : (0:Int) ≤ 2),
-    Bool.false_eq_true, if_false, List.cons.injEq, and_true]
-  omega
+  simp only [padAfter, padBefore, Bool.false_eq_true, if_false, List.cons.injEq, and_true]
+  bridge_arith
 
 /-! `crop_to_bbox` offsets and slice bounds (element-wise reading of the numpy vector code) -/
 theorem bbox_l_offset_eq (n c s : Int) : bbox_l_offset n c s = bboxLOff c := by
